@@ -144,6 +144,17 @@ package resolver
 //@   nosafety all pre
 //@   assert at call (*internal/authority.Cache).SetUntil#1: arg1 == key && arg4 == lastret("middleware/resolver.minNonZero")
 //@   assert at call middleware/resolver.minNonZero#1: arg0 == cutDeadline && inst(arg1) <= inst(lastret("time.Now")) + 60000000000
+//@   # C12: the nested nameserver-address lookup runs under the context checkLoop returned - the one that carries the
+//@   # trail of nameserver names already being resolved - so a glueless nameserver cycle is cut after a bounded number
+//@   # of nested lookups instead of running into the generic nesting ceiling
+//@   assert at call (*middleware/resolver.Resolver).lookupNSAddrV4#1: arg1 == lastret("(*middleware/resolver.Resolver).checkLoop") && arg2 == name
+//@   assert at call (*middleware/resolver.Resolver).checkLoop#1: arg2 == name && arg3 == dns.TypeA
+//@
+//@ func (*Resolver).lookupV6Nss
+//@   abstract
+//@   nosafety all pre
+//@   assert at call (*middleware/resolver.Resolver).lookupNSAddrV6#1: arg1 == lastret("(*middleware/resolver.Resolver).checkLoop") && arg2 == name
+//@   assert at call (*middleware/resolver.Resolver).checkLoop#1: arg2 == name && arg3 == dns.TypeAAAA
 //@
 //@ # ---- C01: AD is set only on data validated up to a trust anchor.
 //@ # every upstream reply enters validation with AD cleared and the client's CD copied
